@@ -44,8 +44,11 @@ CLAIMS = {
     "C07": ("proof", "Partial. Leaf parse-stage checks as postconditions: check_modifiers / check_empty_name emit exactly one error iff "
             "the forbidden construct is present; section / metadata_entry / check_alias / check_note / comp_body emit at most one "
             "diagnostic of the documented severity; all diagnostics queued by component parsers are Error/Warning events "
-            "(only_diags); every primary label satisfies Span::ok. Analysis diagnostics and the short-circuit are not decided.", VERUS),
-    "C08": ("proof", "Partial (value and component level). Contracts on the real linear_scale, ScalableValue::{scale,default_scale}, "
+            "(only_diags); every primary label satisfies Span::ok; the analysis reports the scaling-lock warning exactly when a lock "
+            "is written where it has no effect (defect D9 found by this contract and fixed). Other analysis diagnostics and the "
+            "short-circuit are not decided.", VERUS),
+    "C08": ("proof", "Partial (value and component level). RecipeCollector::{value,quantity} (analysis): exactly the numeric, unlocked "
+            "quantities of ingredients are marked Linear, everything else Fixed, the value kept as written. Contracts on the real linear_scale, ScalableValue::{scale,default_scale}, "
             "ScalableQuantity::{scale,default_scale} and the Scale impls of Ingredient, Cookware and Timer (names, aliases, notes, "
             "relations and modifiers untouched; NoQuantity exactly when there is no quantity): a locked value is returned verbatim with outcome Fixed for every factor; a "
             "scalable number/range is replaced end-wise by the f64 product of its value and the factor (the product is an "
